@@ -6,6 +6,8 @@ LEVEL_NOTE = ("Trusted base: CPython 3.12 (/venv/bin/python), eval/tokenize/frac
               "oracles under /verif/vf, and that sfc_models imports from the /repo working tree (asserted at "
               "start, recorded in evidence).")
 CLAIMS = {
+ 'C20': ("execute the module written by the real generator; residual monitor on its series, differential vs the in-process solver, header check",
+         "Held on K observed blocks: the generated file imports and runs, its series satisfy the block equations (lags from its own k-1, exogenous as supplied) within tolerance, agree with the in-process solver started from the same k=0 values, and its table lists t first and each non-lagged variable once.", "3/C20"),
  'C15': ("one-further-step monitor after accepted steady states (real SolveStep on a deep copy, exogenous frozen), snapshot equality of solver inputs",
          "Held on K observed searches over stable/unit/unstable/oscillating linear lag systems with positive, negative and sign-changing fixed points: an accepted state moves by <= 5 tolerances in one further real step; failures raise only NoEquilibriumError/ValueError; parser lists, exogenous series and horizon unchanged.", "3/C15"),
  'C17': ("fresh-subprocess vs long-history bitwise differential with logging/tracing/re-solve settings; re-parse key-set check",
